@@ -64,8 +64,11 @@ BOUNDS = {
         "raise_kinds": c12_ir.RAISE_KINDS,
         "warn_kinds": c12_ir.WARN_KINDS,
         "paths": PATHS,
+        "long_modules": "every weight-1 program behind 45 one-line fillers (${x} lines or <% %> lines) and ahead of 3: the generated module passes 100 lines; "
+        "8 positions (first, second, middle, around the program, last two) x {${1/0} with the HTML page, <% %> line 2, 2 warning plants} on rotating paths",
     },
     "thorough": {
+        "long_modules": "as quick plus 40+30 fillers and 480+3 fillers (module passes 1000 lines), LF and CRLF",
         "raise_full_product": "weight<=2 over all 32 kinds, LF: every position x 14 raise kinds x 6 paths",
         "raise_rotated": "weight 3 over 8 kinds (W3_KINDS) LF; weight<=2 over the 21 core kinds CRLF (rotating path + principal kinds on all paths)",
         "warn": "weight<=1 all kinds LF and CRLF, weight 2 over 12 kinds (WARN2_KINDS) LF: every position x 8 warning plants x 6 paths x {always,once,error}",
@@ -992,6 +995,7 @@ def tier_spec(tier):
             ("hist-w1", [0, 1], A, ["\n"], "hist"),
             ("retry-w1", [0, 1], A, ["\n"], "retry"),
             ("rot-w2-text-chain", [2], ["t1", "include", "inh"], ["\n"], "rotated"),
+            ("long", ["long", "quick"], A, ["\n"], "long"),
         ]
     return [
         ("full-w2", [0, 1, 2], A, ["\n"], "full"),
@@ -1004,10 +1008,34 @@ def tier_spec(tier):
         ("hist-w1", [1], A, ["\n", "\r\n"], "hist"),
         ("retry-w2", [0, 1, 2], Q + ["mod", "ablock", "inh"], ["\n"], "retry"),
         ("retry-w1", [1], A, ["\n"], "retry"),
+        ("long", ["long", "thorough"], A, ["\n", "\r\n"], "long"),
     ]
 
 
+LONG_PADS = {"quick": [(45, 3)], "thorough": [(45, 3), (40, 30), (480, 3)]}
+LONG_FILL = ["e", "c1"]
+
+
+def long_programs(kinds, pads):
+    """a weight-1 program behind `before` and ahead of `after` one-line fillers: the generated module passes 100
+    (thorough: 1000) lines, so that module line numbers of different widths meet in one line map"""
+    out = []
+    for before, after in pads:
+        for fill in LONG_FILL:
+            for p in c12_ir.programs(1, kinds):
+                if p[0][0] in ("pg", "inh", "inhs"):
+                    body = tuple(p) + ((fill,),) * before + ((fill,),) * after
+                    at = 0
+                else:
+                    body = ((fill,),) * before + tuple(p) + ((fill,),) * after
+                    at = before
+                out.append((body, before, at))
+    return out
+
+
 def group_programs(weights, kinds):
+    if weights and weights[0] == "long":
+        return [b for b, _, _ in long_programs(kinds, LONG_PADS[weights[1]])]
     out = []
     for w in weights:
         out.extend(c12_ir.programs(w, kinds))
@@ -1073,6 +1101,31 @@ def run_program(r, body, pi, nl, scheme):
                         if r.run_retry(body, nl, si, kind, way) is not None:
                             st.states += 1
                             st.nontrivial += 1
+        return
+    if scheme == "long":
+        # positions: the first filler, one in the middle, the last before the program, the program's own, the last one
+        n_fill = sum(1 for it in body if len(it) == 1 and it[0] in LONG_FILL)
+        first_prog = next((i for i, it in enumerate(body) if not (len(it) == 1 and it[0] in LONG_FILL)), 0)
+        tops = [i for i in range(npos) if dry.positions[i]["top"]]
+        sel = sorted({0, 1, npos // 2, max(0, first_prog - 1), first_prog, min(npos - 1, first_prog + 1), npos - 2, npos - 1} & set(range(npos)))
+        st.states += 1
+        r.run_raise(body, nl, None, None, PATHS[pi % len(PATHS)], low=dry, ref=ref0)
+        for si in sel:
+            top = dry.positions[si]["top"]
+            rot = (pi + si) % len(PATHS)
+            for ki, kind in enumerate(PRINCIPAL):
+                low = c12_ir.lower(body, nl, kind, si, seed)
+                ref = c12_ir.reference(low, r.ctx)
+                st.states += 1
+                st.nontrivial += 1
+                for path in (PATHS[(rot + ki) % len(PATHS)], PATHS[(rot + ki + 3) % len(PATHS)]):
+                    r.run_raise(body, nl, si, kind, path, "html" if ki == 0 else "plain", ref=ref, low=low)
+            for ki, kind in enumerate(["w_expr", "w_code2"]):
+                low = c12_ir.lower(body, nl, kind, si, seed)
+                ref = c12_ir.reference(low, r.ctx)
+                st.states += 1
+                st.nontrivial += 1
+                r.run_warn(body, nl, si, kind, PATHS[(rot + ki + 1) % len(PATHS)], "always", low=low, ref=ref)
         return
     if scheme != "warn":
         st.states += 1
